@@ -4,7 +4,7 @@ from props import solverstream as ss
 
 THEOREMS = ["C04_render_terminates", "C04_render_fuel_irrelevant", "C04_render_lines_linear", "C04_render_lines_fine",
             "C04_render_lines_quadratic", "C04_render_size_bound", "C04_simplify_order_independent", "C04_dfs_fuel_sufficient",
-            "C04_pre_fix_renderer_loops", "C04_path_only_exponential", "C04_requires_assert_cannot_fail", "C04_decide_unreachable_needs_falsified_clause"]
+            "C04_pre_fix_renderer_loops", "C04_path_only_exponential", "C04_requires_assert_cannot_fail", "C04_decide_unreachable_needs_falsified_clause", "C04_complete_no_panic"]
 CHECKER = ("coqc Props/C04.v + Print Assumptions; harness solve_cases under catch_unwind + poll watchdog + output-size cap, debug "
            "and release, sync and yielding runtimes; every conflict message compared BYTE FOR BYTE with the extracted renderer model "
            "(Conflict/Render.v) and its line count with the proven bound lin_bound; a sample re-proved inside Coq")
@@ -51,6 +51,25 @@ def run(res, tier, seed, replay):
         erecs, eh = ss.run_streams([("small", 255, "sync", "debug", 500 * n2), ("dense", 255, "sync", "debug", 300 * n2),
                                     ("conflict", 255, "gated:random", "debug", 200 * n2)], seed + 47, dump=True)
         hangs += eh
+    if not replay:
+        drecs, dh2 = ss.run_streams([("conflictx", 255, "sync", "debug", 500 * n2), ("lostassert", 255, "sync", "debug", 200 * n2),
+                                     ("softrej", 255, "sync", "debug", 300 * n2)], seed + 59, dump=True)
+        hangs += dh2
+        erecs = erecs + drecs
+        for r in drecs:
+            if ss.outcome_kind(r["obs"]["outcome"]) == "panic":
+                res.violation(ss.case_key(r["case"]), f"solve panicked: {r['obs']['outcome']['panic']} in {r['stream']}", ss.replay_obj(r))
+    from props import antie
+    antie.annotate_decides(erecs)
+    for r in erecs:
+        if not antie.ok_complete(r):
+            res.tie_break(f"at a call of Solver::decide a clause of the database was falsified or an assertion was not in force "
+                          f"(extracted prop_complete: the hypothesis under which C04_complete_no_panic excludes the unreachable!() of "
+                          f"decide) in {r['stream']}: {r['decides']}", dict(ss.replay_obj(r), decides=r["decides"]))
+        d_ = r.get("decides")
+        if d_ is not None and "error" not in d_ and not d_["ok"] and ss.outcome_kind(r["obs"]["outcome"]) in ("sat", "unsat"):
+            res.tie_break(f"decide correspondence no longer checks in {r['stream']} (the model of Solver::decide proposes something else, or "
+                          f"reaches its unreachable!()): {d_}", dict(ss.replay_obj(r), decides=d_))
     enctie.annotate(erecs)
     for r in erecs:
         if "enc" in r and not enctie.ok(r, ("db", "done", "req_true", "quiet", "assert")):
